@@ -18,7 +18,9 @@ from mc.core import Result
 
 ID = "C13"
 TECHNIQUE = ("exhaustive product-grid enumeration (trial kinds x sizes x containers x column scalings x walker grid) of the QR "
-             "identities and of measurement invariance; exhaustive configuration matrix for get_init_walkers against a Fock-space reference")
+             "identities and of measurement invariance; exhaustive configuration matrix for get_init_walkers against a Fock-space reference"
+             "; every call history up to a length over {get_init_walkers(restricted=False/True), init_prop_data, replace orbitals, optimize} "
+             "on ONE caller-owned wave_data dict (caller's dict unchanged, walkers represent the CURRENT orbitals)")
 
 NODE_FRAC = 1e-2
 C64_KINDS = {"cisd", "cisd_faster", "ucisd"}
@@ -645,8 +647,229 @@ def job_init(cfg):
     return res
 
 
+# ----------------------------------------------------------------------------- part C: call histories on ONE caller-owned wave_data
+def _leaves(x):
+    if isinstance(x, (list, tuple)):
+        out = []
+        for y in x:
+            out += _leaves(y)
+        return out
+    return [np.asarray(x)]
+
+
+def hold(d):
+    """Separately held NumPy copies of every leaf of a dict."""
+    return {k: [np.array(x, copy=True) for x in _leaves(v)] for k, v in d.items()}
+
+
+def modified_keys(d, held):
+    """Keys that were added, removed, or whose leaves are not bitwise equal to the held copies."""
+    bad = [k for k in held if k not in d] + [k for k in d if k not in held]
+    for k in held:
+        if k in d:
+            lv = _leaves(d[k])
+            if len(lv) != len(held[k]) or any(a.shape != b.shape or not np.array_equal(a, b) for a, b in zip(lv, held[k])):
+                bad.append(k)
+    return sorted(set(bad))
+
+
+def hist_letter(kind, n, na, nb, seed, letter):
+    """Orbital letters of the existing angle/frame alphabet: L0 = (generic frame, theta 0), L1 = (another orthogonal frame, theta 0),
+    L2 = (generic frame, theta pi/3).  Returns (moa, mob) as NumPy."""
+    F = al.frame(n, seed, 2) if letter != "L1" else al.frame(n, seed, 5)
+    th = np.pi / 3 if letter == "L2" else 0.0
+    nrot = 0 if kind == "rhf" else min(nb, n - na)
+    G = np.eye(n)
+    for k in range(nrot):
+        G = G @ al.givens(n, k, na + k, th)
+    return F[:, :na], (F @ G)[:, :nb]
+
+
+def hist_set_orbitals(kind, wd, moa, mob):
+    """The user assigns new orbitals IN the same dict."""
+    jnp, wf = trials.lib()
+    wd["mo_coeff"] = jnp.asarray(moa) if kind == "rhf" else [jnp.asarray(moa), jnp.asarray(mob)]
+
+
+def hist_current_orbitals(kind, wd, na, nb):
+    if kind == "rhf":
+        mo = np.asarray(wd["mo_coeff"])
+        return mo[:, :na], mo[:, :nb]
+    return np.asarray(wd["mo_coeff"][0]), np.asarray(wd["mo_coeff"][1])
+
+
+def beta_inside_alpha(moa, mob):
+    """Input test: can a restricted walker (beta = leading columns of the alpha block) represent the determinant?"""
+    if mob.shape[1] == 0:
+        return True
+    Q = np.linalg.qr(moa)[0]
+    return bool(np.abs(mob - Q @ (Q.conj().T @ mob)).max() < 1e-10)
+
+
+def hist_ops(kind, na, nb):
+    ops = ["init_u", "init_r", "prop", "set:L1", "set:L2", "opt"]
+    return ops
+
+
+def history_word(cfg, word, flavour, ctxs):
+    """Execute one word on ONE caller-owned wave_data dict.  Returns (signature or None, detail, n_generator_calls, counters)."""
+    jnp, wf = trials.lib()
+    from ad_afqmc import propagation
+
+    kind, n, na, nb, seed = cfg["kind"], cfg["n"], cfg["na"], cfg["nb"], cfg["seed"]
+    trial, ham, sec, H, hraw = ctxs["trial"], ctxs["ham"], ctxs["sec"], ctxs["H"], ctxs["hraw"]
+    moa0, mob0 = hist_letter(kind, n, na, nb, seed, "L0")
+    wd = {}
+    hist_set_orbitals(kind, wd, moa0, mob0)
+    supplied = None
+    if flavour == "supplied-rdm1":  # documented: a supplied rdm1 keeps being used, whatever happens to the orbitals
+        supplied = np.array([moa0 @ moa0.T, mob0 @ mob0.T])
+        wd["rdm1"] = jnp.asarray(supplied)
+    ncalls = 0
+    cnt = {}
+    for k, op in enumerate(word):
+        here = dict(op=op, position=k)
+        if op.startswith("set:"):
+            hist_set_orbitals(kind, wd, *hist_letter(kind, n, na, nb, seed, op[4:]))
+            continue
+        held = hold(wd)
+        if op == "opt":
+            hd = {"h0": hraw[0], "h1": jnp.asarray(hraw[1]), "chol": jnp.asarray(hraw[2].reshape(len(hraw[2]), n * n)), "ene0": 0.0}
+            new = trial.optimize(hd, wd)
+            bad = modified_keys(wd, held)
+            if bad:
+                return "init-walker-path:caller-wave_data-modified/%s" % "+".join(bad), dict(here), ncalls, cnt
+            extra = sorted(set(new.keys()) ^ set(held.keys()))
+            if extra:
+                return "optimize:returned-wave_data-keys-differ/%s" % "+".join(extra), dict(here), ncalls, cnt
+            wd = new  # wave_data = trial.optimize(ham_data, wave_data)
+            continue
+        moa, mob = hist_current_orbitals(kind, wd, na, nb)
+        ket = fock.ket_uhf(n, na, nb, moa, mob)
+        E_var = (np.conj(ket) @ H @ ket) / (np.conj(ket) @ ket)
+        restricted = op == "init_r" or (op == "prop" and kind == "rhf")
+        ncalls += 1
+        e_est = None
+        try:
+            if op == "prop":
+                hd = gridmc.build_ham_data(n, hraw[0], hraw[1], hraw[2], trial, wd)
+                cls = propagation.propagator_restricted if restricted else propagation.propagator_unrestricted
+                pdat = cls(n_walkers=3).init_prop_data(trial, wd, hd)
+                w, e_est, o_lib = pdat["walkers"], complex(pdat["e_estimate"]), np.asarray(pdat["overlaps"])
+                cnt["prop_calls"] = cnt.get("prop_calls", 0) + 1
+            else:
+                w = trial.get_init_walkers(wd, 3, restricted)
+        except ValueError as e:
+            if restricted:
+                cnt["refused"] = cnt.get("refused", 0) + 1
+                bad = modified_keys(wd, held)
+                if bad:
+                    return "init-walker-path:caller-wave_data-modified/%s" % "+".join(bad), dict(here), ncalls, cnt
+                continue
+            return "init-walker-history/unrestricted:ValueError", dict(here, error=str(e)[:200]), ncalls, cnt
+        # invariant: the generator / getter did not add or change entries of the caller's dict
+        bad = modified_keys(wd, held)
+        if bad:
+            return "init-walker-path:caller-wave_data-modified/%s" % "+".join(bad), dict(here, keys_now=sorted(wd.keys())), ncalls, cnt
+        msg = shape_errors(w, 3, n, na, nb, restricted)
+        if msg:
+            return "init-walker-history:shape", dict(here, error=msg), ncalls, cnt
+        Wa = np.asarray(w) if restricted else np.asarray(w[0])
+        Wb = Wa[:, :, :nb] if restricted else np.asarray(w[1])
+        eo = max([_maxabs(np.einsum("wpi,wpj->wij", np.conj(X), X) - np.eye(X.shape[2])) for X in (Wa, Wb) if X.shape[2]] + [0.0])
+        if not eo <= 1e-10:
+            return "init-walker-history:not-orthonormal", dict(here, err=eo), ncalls, cnt
+        if supplied is not None:
+            # walkers must keep coming from the supplied density: same occupied spaces as its leading natural orbitals
+            ep = max(_maxabs(Wa[0] @ Wa[0].conj().T - supplied[0]), _maxabs(Wb[0] @ Wb[0].conj().T - supplied[1])) if not restricted else \
+                _maxabs(Wa[0] @ Wa[0].conj().T - supplied[0])
+            cnt["supplied_checked"] = cnt.get("supplied_checked", 0) + 1
+            if not ep <= 1e-9:
+                return "init-walker-history/supplied-rdm1:walkers-not-from-supplied-density", dict(here, err=ep), ncalls, cnt
+            continue
+        Phi = sec.walker_vectors(Wa, Wb)
+        O = np.conj(ket) @ Phi
+        on = float(np.abs(O).min() / np.linalg.norm(ket))
+        if not on >= OVLP_MIN * (1 - 1e-6):
+            return "init-walker-history/%s:overlap-with-current-trial-not-bounded-away-from-zero" % ("restricted" if restricted else "unrestricted"), \
+                dict(here, normalised_overlap=on), ncalls, cnt
+        rep = (not restricted) or beta_inside_alpha(moa, mob)
+        if rep:
+            E = (np.conj(ket) @ H @ Phi) / O
+            e = float(np.abs(E - E_var).max() / max(1.0, abs(E_var)))
+            cnt["energy_checked"] = cnt.get("energy_checked", 0) + 1
+            if not e <= 1e-9:
+                return "init-walker-history/%s:energy-not-variational-for-current-orbitals" % ("restricted" if restricted else "unrestricted"), \
+                    dict(here, impl=E[0], ref=E_var, err=e, normalised_overlap=on), ncalls, cnt
+            if e_est is not None:
+                e2 = abs(e_est - E_var.real) / max(1.0, abs(E_var))
+                e3 = float(np.abs(o_lib - O).max() / np.abs(O).max())
+                if not (e2 <= 1e-9 and e3 <= 1e-9):
+                    return "init_prop_data:e_estimate-or-overlaps-not-those-of-the-current-trial", dict(here, e_estimate=e_est, ref=E_var, err=float(e2), overlap_err=e3), ncalls, cnt
+    return None, {}, ncalls, cnt
+
+
+def job_init_history(cfg):
+    res = Result()
+    jnp, wf = trials.lib()
+    import jax
+
+    kind, n, na, nb, seed, L = cfg["kind"], cfg["n"], cfg["na"], cfg["nb"], cfg["seed"], cfg["length"]
+    trial = (wf.rhf if kind == "rhf" else wf.uhf)(n, (na, nb), n_opt_iter=8)
+    from ad_afqmc import hamiltonian
+
+    sec = fock.sector(n, na, nb)
+    h0, h1, chol = al.small_ham(n, 2, seed, spin_dependent=False, scale=0.5)
+    ctxs = dict(trial=trial, ham=hamiltonian.hamiltonian(n), sec=sec, H=sec.hamiltonian(h0, h1, chol), hraw=(h0, np.asarray(h1, dtype=float), np.asarray(chol, dtype=float)))
+    ops = hist_ops(kind, na, nb)
+    only = cfg.get("only")
+    props = 0
+    import itertools
+
+    gens_, changes = ("init_u", "init_r", "prop"), ("set:L1", "set:L2", "opt")
+    # generator -> orbitals change -> generator: the shortest words on which a stale cache can change the walkers
+    sandwiches = [(a, c, b) for a in gens_[:2] for c in changes for b in gens_[:2]] + [w for c in changes for w in (("prop", c, "init_u"), ("init_u", c, "prop"))]
+    for flavour in cfg.get("flavours", ("no-rdm1", "supplied-rdm1")):
+        words = [w for length in range(1, L + 1) for w in itertools.product(ops, repeat=length)]
+        if L < 3:
+            words += sandwiches
+        for word in words:
+            if word[-1] not in gens_:
+                continue  # a word is only observed through a generator call at its end
+            if flavour == "supplied-rdm1" and len(word) > 2 and (word not in sandwiches or "prop" in word):
+                continue
+            if True:
+                if only and (only[0] != flavour or list(only[1]) != list(word)):
+                    continue
+                sig, det, ncalls, cnt = history_word(cfg, list(word), flavour, ctxs)
+                res.add(states=1, transitions=ncalls, evaluations=4 * ncalls, traces=len(word))
+                res.guard("history_words/" + flavour)
+                res.guard("history_generator_calls_after_orbitals_changed", int(any(o.startswith("set:") or o == "opt" for o in word[:-1])))
+                for k, v in cnt.items():
+                    res.guard("history_" + k, v)
+                props += cnt.get("prop_calls", 0)
+                if props >= 40:  # eager init_prop_data re-traces the scan-based measurements on every call
+                    jax.clear_caches()
+                    gridmc._JIT.clear()
+                    props = 0
+                res.nontrivial((kind, n, na, nb, flavour, word))
+                if sig:
+                    res.violation(sig, dict(cfg, what="history", flavour=flavour, word=list(word)), dict(det, word=list(word), flavour=flavour))
+    res.sample(dict(part="init-history", kind=kind, n=n, nelec=[na, nb], ops=ops, max_length=L, flavours=["no-rdm1", "supplied-rdm1"]))
+    return res
+
+
+def hist_configs(tier, seed):
+    thorough = tier == "thorough"
+    cases = [("uhf", 3, 2, 1), ("rhf", 3, 1, 1)] + ([("uhf", 3, 2, 2), ("uhf", 4, 2, 1), ("rhf", 3, 2, 2)] if thorough else [])
+    return [dict(part="inithist", kind=k, n=n, na=na, nb=nb, length=3 if thorough else 2, flavours=[fl], seed=seed, tier=tier)
+            for (k, n, na, nb) in cases for fl in ("no-rdm1", "supplied-rdm1")]
+
+
 # ----------------------------------------------------------------------------- driver
 def job(cfg):
+    if cfg["part"] == "inithist":
+        return job_init_history(cfg)
     return job_qr(cfg) if cfg["part"] == "qr" else job_init(cfg)
 
 
@@ -662,13 +885,21 @@ def run(ctx):
                 "shape, count, orthonormal columns, Fock-model trial overlap >= 1e-3 (normalised) or ValueError, calc_overlap(init) = Fock overlap, "
                 "calc_energy(init) = <psi|H|psi>/<psi|psi> for single determinants the container can represent; "
                 "non-trivial & distinct = distinct non-zero overlaps after QR / of initial walkers")
+    ctx.rule += ("; part C: (uhf (3;2,1), rhf (3;1,1); thorough adds uhf (3;2,2), (4;2,1), rhf (3;2,2)) x flavour {wave_data without rdm1, with a user-supplied rdm1} x every "
+                 "word of length <= 2 (3 thorough) ending in a generator call over {init_u = get_init_walkers(restricted=False), init_r = get_init_walkers(restricted=True), "
+                 "prop = propagator.init_prop_data, set:L1 / set:L2 = the user assigns other orbitals of the angle/frame alphabet in the same dict, opt = wave_data = "
+                 "trial.optimize(ham_data, wave_data)} plus, in the quick tier, the generator -> change -> generator words of length 3; after every generator call: "
+                 "the caller's dict has the same keys and bitwise the same arrays as a held copy, container/shape/count, orthonormal columns, Fock-model overlap with the "
+                 "determinant of the CURRENT orbitals >= 1e-3 or ValueError (restricted), Fock-model mixed energy = variational energy of the CURRENT orbitals where the "
+                 "container can represent them, init_prop_data's e_estimate / overlaps likewise; with a supplied rdm1 the walkers keep spanning the supplied density's spaces")
+    ctx.assume("call histories: optimize returns a new dict (jitted) which becomes the caller's dict; a supplied rdm1 is documented to take precedence over the orbitals, so in that flavour only shape, orthonormality, 'walkers come from the supplied density' and 'dict unchanged' are demanded")
     ctx.assume("walker grids are a dense exhaustive test for QR (not a polynomial identity); walkers whose column-normalised smallest singular value is < 1e-2 or whose reference overlap is < 1e-2 of the grid maximum (energy, force bias only) are excluded beforehand")
     ctx.assume("restricted walkers with n_dn < n_up: qr_vmap returns one factor; the beta factor is the product of the leading n_dn diagonal entries of Q^H W, taken from the oracle's own Q^H W after it was verified upper triangular with prod diag = returned factor")
     ctx.assume("'unchanged' tolerances: force bias 1e-9 for every kind; energy by arithmetic class as in C02: 1e-9 float64 formulas, 2e-5 complex64 intermediates (cisd, ucisd), finite-difference AD trials 6e-6 (two evaluations each within C02's 3e-6) and 3e-5 on the 1e+-6 column scalings (round-off of the second difference at step 1e-4)")
     ctx.assume("'bounded away from zero' = |<psi_T|phi>| / (|psi_T| |phi|) >= 1e-3, the generator's own documented threshold; density-matrix letters are densities of the trial (own, exact, smeared with the trial's orbitals as leading natural orbitals, mean-field reference as mpi_jax supplies it) with an open natural-occupation gap (> 0.2) at n_sigma; a ValueError is always accepted (the property allows refusal), refusals are counted in the guards")
     ctx.assume("complex trial orbitals are admitted for uhf / uhf_cpmc only (their overlap, Green's function, intermediates and rdm1 conjugate the trial; rhf._calc_rdm1 uses mo @ mo.T and stays real); violations on complex orbitals carry the suffix /complex-orbitals")
     ctx.assume("kinds without _calc_rdm1 raise the documented NotImplementedError when no rdm1 is supplied (counted, outside the property)")
-    jobs = qr_configs(ctx.tier, ctx.seed) + init_configs(ctx.tier, ctx.seed)
+    jobs = hist_configs(ctx.tier, ctx.seed) + qr_configs(ctx.tier, ctx.seed) + init_configs(ctx.tier, ctx.seed)
     ctx.pmap(job, jobs)
     ctx.violations.sort(key=lambda v: (v["case"]["n"], v["case"]["na"] + v["case"]["nb"], v["case"].get("point", 0)))
     if ctx.violations:
@@ -677,11 +908,19 @@ def run(ctx):
                       "open_shell_restricted_configs", "returned/restricted", "returned/unrestricted",
                       "variational_energy_checked/restricted-open-shell", "spin_broken_restricted_open_shell_cases",
                       "closed_shell_fallback_construction_returned", "refused_ValueError",
+                      "history_words/no-rdm1", "history_words/supplied-rdm1", "history_generator_calls_after_orbitals_changed", "history_energy_checked",
+                      "history_supplied_checked", "history_prop_calls",
                       "complex_orbital_cases/restricted-open", "complex_orbital_cases/restricted-closed", "complex_orbital_cases/unrestricted-open")
 
 
 def replay(case):
     cfg = dict(case)
+    if cfg["part"] == "inithist":
+        sub = {k: v for k, v in cfg.items() if k not in ("what", "flavour", "word")}
+        sub["flavours"] = [cfg["flavour"]]
+        sub["only"] = [cfg["flavour"], list(cfg["word"])]
+        r = job_init_history(sub)
+        return (len(r.violations) > 0, {"violations": [dict(signature=x["signature"], detail=x["detail"]) for x in r.violations][:1]})
     if cfg["part"] == "init":
         keys = ("case", "restricted", "n_walkers", "what")
         sub = {k: v for k, v in cfg.items() if k not in keys}
